@@ -8,5 +8,6 @@ CONSTANTS
   TD <- ToDec
   NT <- NumTextBug
   NTL <- NumTextLoc
+  CV <- Convert
 INVARIANTS LawDecBigRoundTrip
 CHECK_DEADLOCK FALSE
